@@ -848,7 +848,30 @@ def gen_tail(repo):
         regs = pj["registers"]
     except (ValueError, KeyError) as e:
         raise ExtractError(f"patterns.json: {e}")
+    # the shape serde needs for `Patterns` / `Register` / `Category` (`serde_json::from_str(PATTERNS_JSON).unwrap()`
+    # in the Lazy initialiser of PATTERNS): required fields present with the right JSON type, optional ones absent,
+    # null or of the right type; unknown fields are ignored by serde.  Anything else: no Gen file.
+    def shape(obj, what, required, optional):
+        if not isinstance(obj, dict):
+            raise ExtractError(f"{what}: not an object (serde_json::from_str(..).unwrap() would panic)")
+        for key, ty in required.items():
+            if not isinstance(obj.get(key), ty):
+                raise ExtractError(f"{what}: required field {key!r} missing or of the wrong type (the load would panic)")
+        for key, ty in optional.items():
+            if obj.get(key) is not None and not isinstance(obj[key], ty):
+                raise ExtractError(f"{what}: optional field {key!r} of the wrong type (the load would panic)")
+
+    shape(pj, "patterns.json", {"registers": list, "properties": list}, {})
+    if not all(isinstance(x, str) for x in pj["properties"]):
+        raise ExtractError("patterns.json: properties is not a list of strings (the load would panic)")
+    for k, r in enumerate(regs):
+        shape(r, f"patterns.json registers[{k}]", {"country": str, "flag": str},
+              {"pattern": str, "start": str, "end": str, "comment": str, "categories": list})
+        for j, c in enumerate(r.get("categories") or []):
+            shape(c, f"patterns.json registers[{k}].categories[{j}]", {"pattern": str},
+                  {"category": str, "country": str, "flag": str})
     blocks = []
+    bounds = []
     for k, r in enumerate(regs):
         what = f"patterns.json registers[{k}]"
         if not isinstance(r.get("country"), str):
@@ -858,9 +881,21 @@ def gen_tail(repo):
         st, en = r.get("start"), r.get("end")
         if st is None or en is None:
             continue  # never selected by aircraft_information
-        for v in (st, en):
-            if not isinstance(v, str) or not re.fullmatch(r"0x[0-9a-fA-F]{1,8}", v):
-                raise ExtractError(f"{what}: start/end {v!r} is not 0x<hex> (from_str_radix(&s[2..],16).unwrap())")
+        # `u32::from_str_radix(&s[2..], 16).unwrap()`: the TEXTS go to the model as they are (`blockBounds`) and the
+        # model performs the slice and the parse as checked operations (theorem `patterns_facts`); the numeric
+        # bounds of `blocks` are the same computation done here (0 when it would panic — the model's checked step
+        # panics before the value is used, and `bounds_ok` fails).
+        def rust_bound(v):
+            b = v.encode("utf-8")
+            if len(b) < 2 or (len(b) > 2 and (b[2] & 0xC0) == 0x80):
+                return None
+            t = b[2:].decode("utf-8")
+            if t.startswith("+"):
+                t = t[1:]
+            if not re.fullmatch(r"[0-9a-fA-F]+", t) or int(t, 16) >= 1 << 32:
+                return None
+            return int(t, 16)
+        stv, env = rust_bound(st), rust_bound(en)
         pat = r.get("pattern")
         re_l = "none"
         if pat is not None:
@@ -870,17 +905,26 @@ def gen_tail(repo):
             cw = f"{what}.categories[{j}]"
             if not isinstance(c.get("pattern"), str):
                 raise ExtractError(f"{cw}: no pattern")
-            cre = re_to_lean(ReParser(c["pattern"], cw).parse())
+            cre = "(some " + re_to_lean(ReParser(c["pattern"], cw).parse()) + ")"
             cats.append(f"    ⟨{lean_string(c['pattern'])}, {cre}, {lean_opt_string(c.get('category'))}, "
                         f"{lean_opt_string(c.get('country'))}⟩")
         cat_l = "[]" if not cats else "[\n" + ",\n".join(cats) + "]"
-        blocks.append(f"  ⟨0x{int(st, 16):06X}, 0x{int(en, 16):06X}, {lean_opt_string(pat)}, {re_l}, "
+        bounds.append(f"({lean_string(st)}, {lean_string(en)})")
+        blocks.append(f"  ⟨0x{stv or 0:06X}, 0x{env or 0:06X}, {lean_opt_string(pat)}, {re_l}, "
                       f"{lean_string(r['country'])}, {cat_l}⟩")
     if not blocks:
         raise ExtractError("patterns.json: no address block")
     out.append("def blocks : List Block := [")
     out.append(",\n".join(blocks))
     out.append("]\n")
+    out.append("/-- the `start` / `end` TEXTS of those entries as they stand in patterns.json, in the same order: what")
+    out.append("    `u32::from_str_radix(&start[2..], 16).unwrap()` is applied to at every lookup -/")
+    out.append("def blockBounds : List (String × String) := [")
+    out.append(",\n".join("  " + b for b in bounds))
+    out.append("]\n")
+    out.append("/-- patterns.json parses as JSON and has the shape serde needs for `Patterns` (checked field by field by the")
+    out.append("    extractor; when it does not, no Gen file is produced at all) -/")
+    out.append("def patternsJsonLoads : Bool := true\n")
     out.append("end Rs1090.Gen.Tail\n")
     return "\n".join(out)
 
